@@ -245,6 +245,7 @@ func (w *lsW) do(op int) {
 	panicked := func() (panicked bool) {
 		defer func() {
 			if p := recover(); p != nil {
+				passThrough(p)
 				panicked = true
 			}
 		}()
